@@ -103,6 +103,9 @@ const std::vector<Case>& cases(bool th) {
   int nt = th ? 41 : 21, nr = th ? 21 : 5;
   for (int t = 0; t < 4; ++t) for (int i = 0; i < nt; ++i) for (int j = 0; j < nt; ++j) for (int k = 0; k < nr; ++k)
     v.push_back({0, t, -0.2 + 0.4 * i / (nt - 1), -0.2 + 0.4 * j / (nt - 1), -0.05 + 0.1 * k / (nr - 1), 0, 0, 0, 0, 0, false});
+  // thorough: the eight corners of the envelope on a fine lattice (step 2 mm / 1 mrad): the boundary of the region where the estimator still converges
+  if (th) for (int t = 0; t < 4; ++t) for (int sx : {1, -1}) for (int sy : {1, -1}) for (int sr : {1, -1}) for (int i = 0; i <= 25; ++i) for (int j = 0; j <= 25; ++j) for (int k = 0; k <= 10; ++k)
+    v.push_back({0, t, sx * (0.15 + 0.002 * i), sy * (0.15 + 0.002 * j), sr * (0.04 + 0.001 * k), 0, 0, 0, 0, 0, false});
   for (int t = 0; t < 8; ++t) for (int n : {40, 100, 400}) for (int pct : {0, 10, 20, 30}) for (int place = 0; place < (pct ? 3 : 1); ++place) for (double disp : {10.5, 50.0}) for (int m = 0; m < 6; ++m) {
     if (!pct && disp != 10.5) continue;
     if (!th && (t % 4) >= 2 && (m % 2)) continue;   // float types: half of the motions in the quick tier
